@@ -12,6 +12,8 @@ Tie:      the expression engine only exists behind the import-time switch `array
           (`aestep`), every exported tree must denote (Lean `aeeval`) the computed value, and the model's per-node chunks
           must equal the engine's. `pipe`: random n-d pipelines over the supported operations: values, shape, chunks and
           dtype vs NumPy and vs the classic engine.
+          Extension round: lean/DaskModel/Model/ArrayExprNd.lean + Props/C30xNd.lean (n-d model and rule soundness), section
+          `tracend` in harness/props/_c30x.py (every real pass of n-d pipelines vs the n-d checker `parStepNd`).
 """
 from __future__ import annotations
 
@@ -34,7 +36,7 @@ from props import _c30x as X
 PROP = "C30"
 READY = True
 DRIVER = "dm_reduce"
-LEAN_MODULES = ["DaskModel.Props.C30"]
+LEAN_MODULES = ["DaskModel.Props.C30", "DaskModel.Props.C30xNd"]
 CASE_TIMEOUT_S = 40
 LEVEL_TEXT = (
     "PARTIAL. Proved in Lean 4 for a 1-d integer expression language (leaf, elementwise neg/abs/square, add/sub/mul/maximum of "
@@ -47,15 +49,29 @@ LEVEL_TEXT = (
     "engine's _tree_reduce is modelled (treeDepth) — tree_depth_suffices (n_i ≤ k_i^depth on every reduced axis), "
     "last_axis_depth_refuted (depth from the last reduced axis only is too small on a 6×2 grid); the PartialReduce chain of "
     "the real expression (number of levels, key structure of every level) is diffed against treeDepth / treePlan, the model "
-    "for which Props/C22 proves that the tree returns the fold of all blocks. Everything else (n-d elementwise/slicing, "
-    "values of reductions, map_blocks, stack, broadcasting, creation routines, dtype) is validated differentially against "
-    "NumPy and the classic engine, not proved; termination of the optimizer is observed (pass budget), not proved."
+    "for which Props/C22 proves that the tree returns the fold of all blocks. Extension (Props/C30xNd, n-d: arrays as "
+    "functions of index lists, per-axis chunks; leaves, elementwise ops with NumPy broadcasting, SliceSlicesIntegers with "
+    "integers and slices of any step, rechunk, transpose, k-ary concatenate, opaque nodes = any function of the operands' "
+    "values, finalize): chunks_sum_nd (reported chunks add up to the shape on every axis; unify_dims for broadcasting "
+    "Elemwise through the modelled unify_chunks_expr incl. the common_blockdim loop), step_sound_nd (each of the three rules "
+    "this tree has — rechunk elision, FinalizeCompute → operand / Rechunk(-1,…), Elemwise operand alignment with broadcast "
+    "axes and operands of fewer axes — preserves the denotation exactly), step_shape_nd, step_chunks_nd (elision and "
+    "finalize; chunk preservation of the alignment rule is diffed, not proved), parStepNd_sound / chain_sound_nd (a pass "
+    "accepted by the n-d checker maps an expression denoting v to one denoting v or raising; every exported tree is "
+    "evaluated), and for rules the engine does not have: rechunk_rechunk_nd, slice_slice_fusion_nd (+ arith_slices_fuse), "
+    "slice_elemwise_pushdown_nd (through broadcasting), slice_transpose_nd (sel-only indices for the last two). Section "
+    "tracend exports every real simplify_once / lower_once (before, after) pair of generated n-d pipelines to the checker and "
+    "counts them (branches 'nd real pass accepted …'): all real passes are inside the modelled subset, about a fifth of "
+    "them with opaque operands (stack, map_blocks, newaxis, reductions). Still validated only (differentially against NumPy "
+    "and the classic engine): values of reductions, map_blocks, stack, creation routines, dtype, floats; termination of the "
+    "optimizer is observed (pass budget), not proved."
 )
 LEVEL_NOTE = ("Trusted: Lean kernel + standard axioms; the child-side exporter that maps expression nodes to the model AST and "
               "PartialReduce._layer() to key lists; NumPy and the classic dask.array engine as oracles. Nodes outside the modelled "
               "subset are counted in the evidence (branch 'outside modelled subset'), not failed.")
 TECHNIQUE = "Lean 4 proof (rule soundness + proved pass checker = translation validation of optimizer traces; depth loop of the reduction tree) + differential testing in a query-planning subprocess"
-ASSUMPTIONS = ["the exporter's mapping of FromArray/Elemwise/SliceSlicesIntegers/Rechunk/TasksRechunk/Concatenate/FinalizeComputeArray to the model AST is faithful (diffed: per-node chunks, denotation = computed value)",
+ASSUMPTIONS = ["n-d extension: the exporter node_nd maps FromArray/creation nodes/Elemwise/SliceSlicesIntegers/Rechunk/TasksRechunk/Transpose/Concatenate to the n-d AST and every other node to an opaque node whose tag is its type and non-expression operands (diffed: per-node chunks of every tree, denotation = computed value for trees without opaque nodes); an opaque node's value depends only on its operands' values",
+               "the exporter's mapping of FromArray/Elemwise/SliceSlicesIntegers/Rechunk/TasksRechunk/Concatenate/FinalizeComputeArray to the model AST is faithful (diffed: per-node chunks, denotation = computed value)",
                "float math.ceil(math.log(n, k)) of the depth loop is treeDepth or treeDepth + 1 (checked on every generated grid)"]
 TRUSTED = ["harness/props/_c30_child.py exporter", "NumPy and the classic array engine as oracles"]
 
